@@ -167,3 +167,15 @@ let src_of (s : sexp) : src =
   | "throw" -> SrcThrow (zarg (List.hd a))
   | "create" -> SrcCreate (List.map ev_of a)
   | h -> failwith ("bad source " ^ h)
+
+let op2_of (s : sexp) : op2 =
+  match head s with
+  | "merge" -> OMerge
+  | "zip" -> OZip
+  | "combine_latest" -> let f = apply_fn2 (fn2_of (List.hd (args s))) in OCombineLatest (fun a b -> VP (f a b, b))
+  | "with_latest_from" -> OWithLatestFrom
+  | "take_until" -> OTakeUntil
+  | "skip_until" -> OSkipUntil
+  | "sample" -> OSample
+  | "buffer" -> OBuffer
+  | h -> failwith ("bad op2 " ^ h)
